@@ -164,6 +164,14 @@ def build(be, spec, example_batch, start=None):
 
         def make(b):
             return be.series(b["x"], b["idx"])
+    elif kind == "frame2":
+        # two value columns, reductions over the whole frame (state = one Series per statistic)
+        ex = be.frame({"x": example_batch["x"], "y": [v for v in example_batch["x"]]}, example_batch["idx"])
+        sdf = DataFrame(example=ex, stream=src)
+        target = sdf
+
+        def make(b):
+            return be.frame({"x": b["x"], "y": [v * 2 + 1 for v in b["x"]]}, b["idx"])
     else:
         cols = {"x": example_batch["x"], "k": example_batch["k"]}
         ex = be.frame(cols, example_batch["idx"])
@@ -248,6 +256,9 @@ def oracle(be, spec, batches, k):
     if not rows:
         return "EMPTY"
     op = spec["op"]
+    if kind == "frame2":
+        f2 = be.frame({"x": x, "y": [None if v is None else v * 2 + 1 for v in x]}, idx)
+        return norm(getattr(f2, op)())
     if kind == "series" or not spec.get("groupby"):
         s = be.series(x, idx)
         if op == "size":
